@@ -31,7 +31,7 @@ pub fn computer_vs_computer(move_limit: u8, sleep_between_turns_in_ms: u64, dept
             _ => (),
         };
 
-        if move_limit > 0 && game.fullmove_clock() > move_limit {
+        if move_limit > 0 && game.fullmove_clock() > u16::from(move_limit) {
             break;
         }
 
